@@ -24,6 +24,8 @@ pub fn transact_plain<DB: Database>(db: DB, spec: SpecId, block: &BlockSpec, tx:
 
 pub fn transact_mon<DB: Database>(db: DB, spec: SpecId, block: &BlockSpec, tx: &TxSpec, mon: &mut Mon) -> Result<ResultAndState, EVMError<DB::Error>> {
     mon.begin_tx();
+    let (s0, e0) = (mon.n_step, mon.n_step_end);
+    let d0 = revm::interpreter::interpreter::VERIF_STEPS.with(|c| c.get());
     let r = {
         let mut evm = Evm::builder()
             .with_db(db)
@@ -34,6 +36,8 @@ pub fn transact_mon<DB: Database>(db: DB, spec: SpecId, block: &BlockSpec, tx: &
             .build();
         evm.transact()
     };
+    let d1 = revm::interpreter::interpreter::VERIF_STEPS.with(|c| c.get());
+    mon.check_step_ground_truth(d1.wrapping_sub(d0), s0, e0);
     mon.end_tx(r.is_err());
     r
 }
@@ -151,4 +155,57 @@ pub fn trace_diff(r: &[TraceRec], x: &[TraceRec]) -> Option<(usize, &'static str
         return Some((i, "length", r.get(i).cloned(), x.get(i).cloned()));
     }
     None
+}
+
+// ------------------------------------------------------------------------------------------------
+// one Evm instance reused for a whole history under the monitoring inspector, with database faults
+// injected into chosen transactions and, optionally, a handler register that boxes the instruction
+// table appended before the inspector's register (C29 third and fourth variant)
+// ------------------------------------------------------------------------------------------------
+pub struct ReusedRun {
+    pub mon: Mon,
+    pub outcomes: Vec<TxOutcome>,
+    pub panic: Option<(usize, PanicInfo)>,
+}
+
+pub fn run_reused_mon(case: &Case, faults: &[Option<(DbMethod, u64)>], preboxed: bool, cfg: MonCfg) -> ReusedRun {
+    let db = RefDB::new(case.world.clone(), case.spec);
+    // (a no-op register keeps the builder in one type state for both variants)
+    let b = Evm::builder().with_db(db).with_external_context(Mon::new(cfg)).with_spec_id(case.spec);
+    let b = if preboxed {
+        b.append_handler_register(|h| {
+            h.instruction_table.to_boxed();
+        })
+    } else {
+        b.append_handler_register(|_h| {})
+    };
+    let mut evm = b.append_handler_register(inspector_handle_register).build();
+    let mut out = ReusedRun { mon: Mon::new(mon_cfg_for(case.spec, false)), outcomes: vec![], panic: None };
+    for (i, tx) in case.txs.iter().enumerate() {
+        evm.context.evm.env = make_env(case.spec, &case.block, tx);
+        evm.context.evm.db.fault = faults.get(i).copied().flatten();
+        evm.context.evm.db.stats = Default::default();
+        evm.context.external.begin_tx();
+        let (s0, e0) = (evm.context.external.n_step, evm.context.external.n_step_end);
+        let d0 = revm::interpreter::interpreter::VERIF_STEPS.with(|c| c.get());
+        let r = guarded(|| evm.transact());
+        let d1 = revm::interpreter::interpreter::VERIF_STEPS.with(|c| c.get());
+        evm.context.evm.db.fault = None;
+        match r {
+            Err(p) => {
+                out.panic = Some((i, p));
+                break;
+            }
+            Ok(res) => {
+                evm.context.external.check_step_ground_truth(d1.wrapping_sub(d0), s0, e0);
+                evm.context.external.end_tx(res.is_err());
+                out.outcomes.push(outcome_of(&res.as_ref().map(|r| r.result.clone()).map_err(|e| e.clone())));
+                if let Ok(rs) = res {
+                    evm.context.evm.db.commit(rs.state);
+                }
+            }
+        }
+    }
+    out.mon = std::mem::replace(&mut evm.context.external, Mon::new(mon_cfg_for(case.spec, false)));
+    out
 }
